@@ -40,6 +40,7 @@ func init() {
 	specsFor["C14"] = c14Specs
 	checks["C14"] = func(c *Ctx) *Result {
 		r := runSpecs(c, c14Specs(c.Tier))
+		runLongChainPrunes(c, r, []Oracle{oracleVersions([]byte("a"))}, []Cfg{defaultCfg, {Fast: true, IVSet: true, IV: 95}})
 		if r.Found == nil {
 			depth := 6
 			if c.Tier == "thorough" {
